@@ -58,6 +58,20 @@ class SimLoop(asyncio.BaseEventLoop):
         self.thread_calls = 0
         self.progress = None  # callable() -> monotone progress counter of the workload (None: unknown)
         self._last_progress = None
+        # every task gets a creation ordinal: asyncio.all_tasks() is a set (id()-hash order), anything that walks
+        # over "all tasks" (cancel-all fault, teardown) must do so in creation order to stay deterministic
+        self._task_seq = 0
+
+        def factory(loop, coro, **kwargs):
+            t = asyncio.Task(coro, loop=loop, **kwargs)
+            loop._task_seq += 1
+            t._sim_order = loop._task_seq
+            return t
+
+        self.set_task_factory(factory)
+
+    def tasks_in_creation_order(self):
+        return sorted((t for t in asyncio.all_tasks(self)), key=lambda t: getattr(t, '_sim_order', 0))
 
     # --- clock -----------------------------------------------------------------
     def time(self) -> float:
@@ -188,7 +202,7 @@ def teardown(loop: SimLoop, rounds: int = 6) -> int:
     left = 0
     try:
         for _ in range(rounds):
-            tasks = [t for t in asyncio.all_tasks(loop) if not t.done()]
+            tasks = [t for t in loop.tasks_in_creation_order() if not t.done()]
             if not tasks:
                 break
             for t in tasks:
